@@ -20,6 +20,7 @@ type vStore struct {
 	ops       int  // mutating operations issued so far (in the current window)
 	failAt    int  // the failAt-th mutating operation fails (-1: never)
 	counting  bool // ops are counted / faults injected only while true
+	yieldOnOps  bool // concurrency obligations: storage operations are scheduling points
 	strict      bool // flag a use of an ended transaction's handle at the moment it happens
 	useAfterEnd int // storage operations observed on handles of an ended transaction
 	writes    int
@@ -47,6 +48,9 @@ type vBucket struct {
 }
 
 func (b vBucket) check() {
+	if b.st.yieldOnOps {
+		vyield() // a scheduling point (natively: a random short pause) at every storage operation
+	}
 	if *b.ended {
 		b.st.useAfterEnd++
 		if b.st.strict {
